@@ -30,6 +30,9 @@ pub struct Profile {
     pub big_initial: u64, // per-mille chance of a large initial fill
     pub ladder_at_end: bool,
     pub full_sweep_every: u64,
+    /// may the history commit a changeset whose base state was left and re-entered (same root,
+    /// intervening commits)? Only where the known ABA finding is being tracked.
+    pub allow_aba: bool,
 }
 
 pub fn profile(name: &str) -> Profile {
@@ -49,6 +52,7 @@ pub fn profile(name: &str) -> Profile {
         big_initial: 100,
         ladder_at_end: false,
         full_sweep_every: 8,
+        allow_aba: false,
     };
     match name {
         "C01" => Profile {
@@ -70,8 +74,9 @@ pub fn profile(name: &str) -> Profile {
             name: "C05",
             val: ValProfile::Small,
             key_profile: [1, 3, 6],
-            w: [40, 14, 1, 4, 10, 30, 4],
+            w: [40, 14, 3, 4, 10, 30, 4],
             prove_per_commit: 24,
+            allow_aba: true,
             ..base
         },
         "C06" => Profile {
@@ -156,6 +161,8 @@ struct OvEntry {
     root: Hash,
     status: OvStatus,
     depth: usize,
+    /// commit epoch at which the overlay was prepared
+    epoch: u64,
 }
 
 pub struct Case<'a, K: HashKind> {
@@ -173,6 +180,8 @@ pub struct Case<'a, K: HashKind> {
     commit_marker: Option<usize>,
     /// a commit was rejected or deferred earlier in this history
     rejections_seen: bool,
+    /// number of successful commits + rollbacks so far
+    epoch: u64,
     pub hook: Option<&'a mut (dyn FnMut(&Sut<K>, &mut Rep, &str) + 'a)>,
 }
 
@@ -252,6 +261,7 @@ pub fn run_case_k<'a, K: HashKind>(
         commits: 0,
         commit_marker: None,
         rejections_seen: false,
+        epoch: 0,
         hook,
     };
     case.run(n_ops);
@@ -513,13 +523,19 @@ impl<'a, K: HashKind> Case<'a, K> {
         match res {
             Ok(Ok(())) => {}
             Ok(Err(e)) => {
+                self.sut.dead = true;
+                if e.contains("bucket exhaustion") {
+                    // a full hash table is a legitimate reason for a commit to fail (C14 covers
+                    // how it must fail); the history simply ends here.
+                    self.rep.feat("histories_ended_by_bucket_exhaustion", 1);
+                    return false;
+                }
                 self.rep.eval("C01", nontrivial);
                 self.rep.fail(
                     "C01",
                     &format!("commit-error:{}", msg_class(&e)),
                     format!("{ctx}: model-conforming commit failed: {e}"),
                 );
-                self.sut.dead = true;
                 return false;
             }
             Err(p) => {
@@ -535,6 +551,7 @@ impl<'a, K: HashKind> Case<'a, K> {
         }
         self.sut.model.commit_state(new_state);
         self.commits += 1;
+        self.epoch += 1;
         self.commit_marker = None;
         let sweep = self.p.full_sweep_every > 0 && self.commits % self.p.full_sweep_every == 0;
         self.sut
@@ -672,6 +689,7 @@ impl<'a, K: HashKind> Case<'a, K> {
             }
         }
         self.sut.model.rollback(n);
+        self.epoch += 1;
         self.commit_marker = None;
         let want = self.sut.model.root();
         let got = db.root().into_inner();
@@ -703,7 +721,7 @@ impl<'a, K: HashKind> Case<'a, K> {
                 }
             }
         }
-        let mut sub = Rep::new(self.rep.case_seed);
+        let mut sub = self.rep.sub();
         sub.op_index = self.rep.op_index;
         self.sut.check_reads(&mut sub, &keys, &ctx, nontrivial);
         self.sut.check_reads(&mut sub, &extra, &ctx, nontrivial);
@@ -734,7 +752,7 @@ impl<'a, K: HashKind> Case<'a, K> {
                     self.rep.fail("C09", "refused-rollback-changed-state", format!("{ctx}: root/seqn changed"));
                 }
                 let keys = self.sut.probe_keys(&mut self.rng, &[], 16, 4);
-                let mut sub = Rep::new(self.rep.case_seed);
+                let mut sub = self.rep.sub();
                 self.sut.check_reads(&mut sub, &keys, &ctx, false);
                 for f in &sub.findings {
                     self.rep.fail("C09", "refused-rollback-changed-values", f.detail.clone());
@@ -782,7 +800,7 @@ impl<'a, K: HashKind> Case<'a, K> {
                     return false;
                 }
                 let keys = self.sut.probe_keys(&mut self.rng, &[], 24, 4);
-                let mut sub = Rep::new(self.rep.case_seed);
+                let mut sub = self.rep.sub();
                 self.sut.check_reads(&mut sub, &keys, &ctx, false);
                 for f in &sub.findings {
                     self.rep.fail(prop, "refused-rollback-changed-values", f.detail.clone());
@@ -809,6 +827,7 @@ impl<'a, K: HashKind> Case<'a, K> {
                 }
                 // served from records the store still physically holds: must be the true state
                 self.sut.model.rollback(n);
+                self.epoch += 1;
                 self.commit_marker = None;
                 let want = self.sut.model.root();
                 let got = db.root().into_inner();
@@ -823,7 +842,7 @@ impl<'a, K: HashKind> Case<'a, K> {
                     self.rep.fail(prop, "rollback-seqn", format!("{ctx}: sync_seqn {} != {}", db.sync_seqn(), self.sut.model.seqn));
                 }
                 let keys = self.sut.probe_keys(&mut self.rng, &[], 48, 8);
-                let mut sub = Rep::new(self.rep.case_seed);
+                let mut sub = self.rep.sub();
                 self.sut.check_reads(&mut sub, &keys, &ctx, true);
                 for f in &sub.findings {
                     self.rep.fail(prop, &format!("rollback-values:{}", f.sig), f.detail.clone());
@@ -902,7 +921,19 @@ impl<'a, K: HashKind> Case<'a, K> {
     fn chain_current(&self, chain: &[usize]) -> bool {
         match chain.last() {
             None => true,
-            Some(&oldest) => self.ovs[oldest].base_root == self.sut.model.root(),
+            Some(&oldest) => {
+                let e = &self.ovs[oldest];
+                if e.base_root != self.sut.model.root() {
+                    return false;
+                }
+                // same root is not enough: the base must not have been left and re-entered
+                // (known ABA finding), unless this profile tracks that finding.
+                self.p.allow_aba
+                    || match e.parent {
+                        None => e.epoch == self.epoch,
+                        Some(p) => self.commit_marker == Some(p),
+                    }
+            }
         }
     }
 
@@ -1015,6 +1046,7 @@ impl<'a, K: HashKind> Case<'a, K> {
             root: prep.new_root,
             status: OvStatus::Live,
             depth,
+            epoch: self.epoch,
         });
     }
 
@@ -1072,7 +1104,7 @@ impl<'a, K: HashKind> Case<'a, K> {
                 other => self.rep.fail("C11", "overlay-session-read-error", format!("{ctx}: {other:?}")),
             }
         }
-        let mut sub = Rep::new(self.rep.case_seed);
+        let mut sub = self.rep.sub();
         sub.op_index = self.rep.op_index;
         self.sut.check_proofs(&mut sub, &sess, &view, root, &keys[..keys.len().min(24)], &ctx, true);
         for f in &sub.findings {
@@ -1099,6 +1131,12 @@ impl<'a, K: HashKind> Case<'a, K> {
             return;
         }
         let i = *self.rng.pick(&cands);
+        if self.ovs[i].parent.is_none() && self.ovs[i].epoch != self.epoch {
+            if !self.p.allow_aba {
+                return;
+            }
+            self.note_aba();
+        }
         // The parent-marker rule: if the overlay has a committed parent, that parent must be the
         // most recent commit. When the roots coincide although something else was committed in
         // between (no-op commits) the outcome is unspecified: skip.
@@ -1131,10 +1169,11 @@ impl<'a, K: HashKind> Case<'a, K> {
                 self.ovs[i].status = OvStatus::Committed;
                 self.sut.model.commit_state(st);
                 self.commits += 1;
+                self.epoch += 1;
                 self.commit_marker = Some(i);
                 // C11: the store now equals the model in which the batch was committed directly
                 let keys: Vec<Key> = self.sut.probe_keys(&mut self.rng, &[], 32, 8);
-                let mut sub = Rep::new(self.rep.case_seed);
+                let mut sub = self.rep.sub();
                 sub.op_index = self.rep.op_index;
                 self.sut.post_commit_checks(&mut sub, &mut self.rng, &keys, &ctx, true, self.commits % 4 == 0);
                 for f in &sub.findings {
@@ -1233,13 +1272,22 @@ impl<'a, K: HashKind> Case<'a, K> {
             self.rep.fail(prop, "refused-commit-poisoned", format!("{ctx}: handle poisoned"));
         }
         let keys = self.sut.probe_keys(&mut self.rng, &[], 24, 6);
-        let mut sub = Rep::new(self.rep.case_seed);
+        let mut sub = self.rep.sub();
         sub.op_index = self.rep.op_index;
         self.sut.check_reads(&mut sub, &keys, ctx, true);
         self.sut.check_root(&mut sub, ctx, true);
         for f in &sub.findings {
             self.rep.fail(prop, &format!("refused-commit-effect:{}", f.sig), f.detail.clone());
         }
+    }
+
+    /// A changeset whose base state was left and re-entered is about to be committed. NOMT accepts
+    /// it by root equality although its page/bucket assumptions are stale (known finding); every
+    /// later finding of this case is labelled accordingly.
+    fn note_aba(&mut self) {
+        self.rep.feat("aba_commits", 1);
+        self.rep.sig_prefix = "after-aba-commit:".to_string();
+        self.rep.t("  (ABA: base state was left and re-entered before this commit)".into());
     }
 
     fn ov_drop(&mut self, live: &[usize]) {
@@ -1390,6 +1438,7 @@ impl<'a, K: HashKind> Case<'a, K> {
         }
         self.rng.shuffle(&mut entries);
         let rollback_between = self.sut.model.rollback_enabled && self.rng.chance(1, 5);
+        let prepared_epoch = self.epoch;
         for (idx, (cs, batch)) in entries.into_iter().enumerate() {
             if self.sut.dead {
                 return;
@@ -1401,6 +1450,13 @@ impl<'a, K: HashKind> Case<'a, K> {
                 }
             }
             let valid = self.sut.model.root() == base_root;
+            if valid && self.epoch != prepared_epoch {
+                if !self.p.allow_aba {
+                    // would be accepted by root equality on a re-entered base: not generated here
+                    continue;
+                }
+                self.note_aba();
+            }
             let nb = self.rng.chance(1, 2);
             let with_reader = nb && self.rng.chance(1, 3);
             let kind = match &cs {
@@ -1515,9 +1571,10 @@ impl<'a, K: HashKind> Case<'a, K> {
                 (Ok(Ok(false)), true) => {
                     self.sut.model.commit_state(new_state);
                     self.commits += 1;
+                    self.epoch += 1;
                     self.commit_marker = None;
                     let keys: Vec<Key> = batch.iter().map(|(k, _)| *k).collect();
-                    let mut sub = Rep::new(self.rep.case_seed);
+                    let mut sub = self.rep.sub();
                     sub.op_index = self.rep.op_index;
                     self.sut.post_commit_checks(&mut sub, &mut self.rng, &keys, &ctx, true, false);
                     for f in &sub.findings {
